@@ -137,4 +137,164 @@ theorem slice_in_range (n : Nat) (a b c : Option Int) :
       · unfold pyAdjust; split <;> (try split) <;> (try split) <;> (try split) <;> omega
       · unfold pyAdjust; split <;> (try split) <;> (try split) <;> (try split) <;> omega
 
+/-! ## the positions selected are exactly Python's -/
+
+theorem pyLen_pos_step (i stop step : Int) (hs : 0 < step) (hlt : i < stop) :
+    pyLen i stop step = pyLen (i + step) stop step + 1 := by
+  unfold pyLen
+  have h1 : step > 0 := hs
+  have h2 : ¬ (step < 0) := by omega
+  simp only [h1, if_true, hlt]
+  by_cases h3 : i + step < stop
+  · simp only [h3, if_true]
+    have : (stop - i - 1) = (stop - (i + step) - 1) + 1 * step := by omega
+    rw [this, Int.add_mul_ediv_right _ _ (by omega)]
+    have h0 : 0 ≤ (stop - (i + step) - 1) / step := Int.ediv_nonneg (by omega) (by omega)
+    omega
+  · simp only [h3, if_false]
+    have : (stop - i - 1) / step = 0 := Int.ediv_eq_zero_of_lt (by omega) (by omega)
+    rw [this]; rfl
+
+theorem iter_pos (step stop : Int) (hs : 0 < step) : ∀ (fuel : Nat) (i : Int), pyLen i stop step ≤ fuel →
+    iter fuel i stop step = (List.range (pyLen i stop step)).map fun (k : Nat) => i + (k : Int) * step := by
+  intro fuel
+  induction fuel with
+  | zero =>
+    intro i h
+    have : pyLen i stop step = 0 := by omega
+    simp [iter, this]
+  | succ f ih =>
+    intro i h
+    unfold iter
+    have h0 : ¬ step = 0 := by omega
+    have h1 : step ≥ 0 := by omega
+    simp only [h0, if_false, h1, if_true]
+    by_cases hlt : i < stop
+    · simp only [hlt, if_true]
+      have hl := pyLen_pos_step i stop step hs hlt
+      rw [ih (i + step) (by omega), hl, List.range_succ_eq_map]
+      simp only [List.map_cons, List.map_map]
+      congr 1
+      · simp
+      · apply List.map_congr_left
+        intro k _
+        simp only [Function.comp]
+        have : ((k.succ : Nat) : Int) * step = (k : Int) * step + step := by
+          have e : ((k.succ : Nat) : Int) = (k : Int) + 1 := by simp
+          rw [e, Int.add_mul]; simp
+        omega
+    · simp only [hlt, if_false]
+      have : pyLen i stop step = 0 := by
+        unfold pyLen
+        have h1' : step > 0 := hs
+        simp [h1', hlt]
+      simp [this]
+
+theorem pyLen_neg_step (i stop step : Int) (hs : step < 0) (hgt : stop < i) :
+    pyLen i stop step = pyLen (i + step) stop step + 1 := by
+  unfold pyLen
+  have h1 : ¬ (step > 0) := by omega
+  simp only [h1, if_false, hs, if_true, hgt]
+  by_cases h3 : stop < i + step
+  · simp only [h3, if_true]
+    have : (i - stop - 1) = (i + step - stop - 1) + 1 * (-step) := by omega
+    rw [this, Int.add_mul_ediv_right _ _ (by omega)]
+    have h0 : 0 ≤ (i + step - stop - 1) / (-step) := Int.ediv_nonneg (by omega) (by omega)
+    omega
+  · simp only [h3, if_false]
+    have : (i - stop - 1) / (-step) = 0 := Int.ediv_eq_zero_of_lt (by omega) (by omega)
+    rw [this]; rfl
+
+theorem iter_neg (step stop : Int) (hs : step < 0) : ∀ (fuel : Nat) (i : Int), pyLen i stop step ≤ fuel →
+    iter fuel i stop step = (List.range (pyLen i stop step)).map fun (k : Nat) => i + (k : Int) * step := by
+  intro fuel
+  induction fuel with
+  | zero =>
+    intro i h
+    have : pyLen i stop step = 0 := by omega
+    simp [iter, this]
+  | succ f ih =>
+    intro i h
+    unfold iter
+    have h0 : ¬ step = 0 := by omega
+    have h1 : ¬ step ≥ 0 := by omega
+    simp only [h0, if_false, h1]
+    by_cases hgt : i > stop
+    · simp only [hgt, if_true]
+      have hl := pyLen_neg_step i stop step hs hgt
+      rw [ih (i + step) (by omega), hl, List.range_succ_eq_map]
+      simp only [List.map_cons, List.map_map]
+      congr 1
+      · simp
+      · apply List.map_congr_left
+        intro k _
+        simp only [Function.comp]
+        have : ((k.succ : Nat) : Int) * step = (k : Int) * step + step := by
+          have e : ((k.succ : Nat) : Int) = (k : Int) + 1 := by simp
+          rw [e, Int.add_mul]; simp
+        omega
+    · simp only [hgt, if_false]
+      have : pyLen i stop step = 0 := by
+        unfold pyLen
+        have h1' : ¬ step > 0 := by omega
+        have h2 : ¬ stop < i := by omega
+        simp [h1', hs, h2]
+      simp [this]
+
+theorem pyAdjust_range_pos (n : Nat) (v : Option Int) (st : Int) (h : 0 ≤ st) (b : Bool) :
+    0 ≤ pyAdjust n v st b ∧ pyAdjust n v st b ≤ n := by
+  unfold pyAdjust; split <;> (try split) <;> (try split) <;> (try split) <;> omega
+
+theorem pyAdjust_range_neg (n : Nat) (v : Option Int) (st : Int) (h : st < 0) (b : Bool) :
+    -1 ≤ pyAdjust n v st b ∧ pyAdjust n v st b ≤ (n : Int) - 1 := by
+  unfold pyAdjust; split <;> (try split) <;> (try split) <;> (try split) <;> omega
+
+theorem pyLen_le (s e st : Int) (lo hi : Int) (hs : lo ≤ s ∧ s ≤ hi) (he : lo ≤ e ∧ e ≤ hi) :
+    (pyLen s e st : Int) ≤ hi - lo := by
+  unfold pyLen
+  by_cases h1 : st > 0
+  · simp only [h1, if_true]
+    split
+    · have := Int.ediv_le_self (a := e - s - 1) st (by omega)
+      have h0 : 0 ≤ (e - s - 1) / st := Int.ediv_nonneg (by omega) (by omega)
+      omega
+    · simp; omega
+  · simp only [h1, if_false]
+    by_cases h2 : st < 0
+    · simp only [h2, if_true]
+      split
+      · have := Int.ediv_le_self (a := s - e - 1) (-st) (by omega)
+        have h0 : 0 ≤ (s - e - 1) / (-st) := Int.ediv_nonneg (by omega) (by omega)
+        omega
+      · simp; omega
+    · simp [h2]; omega
+
+/-- **slicing selects exactly the positions Python's slice selects** (step 0 selects nothing) -/
+theorem slice_eq_python (n : Nat) (a b c : Option Int) : sliceIdx n a b c = pyIndices n a b c := by
+  unfold sliceIdx pyIndices
+  by_cases hz : c.getD 1 = 0
+  · simp [hz, iter]
+  · simp only [hz, if_false]
+    by_cases hst : c.getD 1 ≥ 0
+    · have hpos : 0 < c.getD 1 := by omega
+      simp only [hst, if_true]
+      have hs := bound_pos n a (c.getD 1) hst true
+      have he := bound_pos n b (c.getD 1) hst false
+      simp only [if_true, Bool.false_eq_true, if_false] at hs he
+      rw [hs, he]
+      apply iter_pos _ _ hpos
+      have := pyLen_le (pyAdjust n a (c.getD 1) true) (pyAdjust n b (c.getD 1) false) (c.getD 1) 0 n
+        (pyAdjust_range_pos n a _ hst true) (pyAdjust_range_pos n b _ hst false)
+      omega
+    · have hneg : c.getD 1 < 0 := by omega
+      simp only [hst, if_false]
+      have hs := bound_neg n a (c.getD 1) hneg true
+      have he := bound_neg n b (c.getD 1) hneg false
+      simp only [if_true, Bool.false_eq_true, if_false] at hs he
+      rw [hs, he]
+      apply iter_neg _ _ hneg
+      have := pyLen_le (pyAdjust n a (c.getD 1) true) (pyAdjust n b (c.getD 1) false) (c.getD 1) (-1) ((n : Int) - 1)
+        (pyAdjust_range_neg n a _ hneg true) (pyAdjust_range_neg n b _ hneg false)
+      omega
+
 end Ssl.C09
